@@ -276,7 +276,7 @@ class ABTest(Selector):
             self.over(generation, release=release, project=project, target=target)
             return ABTest(*self._variants)  # pylint: disable=no-value-for-parameter
 
-    @dataclasses.dataclass
+    @dataclasses.dataclass(eq=False)
     class Slot:
         """Internal container for variant metadata."""
 
